@@ -16,11 +16,13 @@ SAME_KINDS = ("shift", "subpix", "scale", "fscale", "mirror", "rot", "far", "tou
 def src_box(rng: random.Random, crs="EPSG:3857", binary_exact: bool = True, max_n: int = 40):
     from odc.geo.geobox import GeoBox
 
-    r = rng.choice([10.0, 30.0, 2.5, 0.5, 0.25, 100.0]) if binary_exact else rng.choice([10.0, 0.1, 1 / 3, 30.0, 0.00025])
+    r = rng.choice([10.0, 30.0, 2.5, 0.5, 0.25, 100.0, 1.0]) if binary_exact else rng.choice([10.0, 0.1, 1 / 3, 30.0, 0.00025])
     sy = rng.choice([-1, -1, 1])
     sx = rng.choice([1, 1, -1])
     nx, ny = rng.randint(1, max_n), rng.randint(1, max_n)
     tx, ty = rng.randint(-50, 50) * r, rng.randint(-50, 50) * r
+    if r == 1.0 and rng.random() < 0.5:
+        tx = ty = 0.0  # unit pixels with the corner at the CRS origin: geotransform (0, 1, 0, 0, 0, +-1), GDAL's "not georeferenced" (D35)
     return GeoBox((ny, nx), Affine(sx * r, 0, tx, 0, sy * r, ty), crs)
 
 
